@@ -133,6 +133,7 @@ func allJobs(f lib.Flags) []job {
 	jobs = append(jobs, batchJobs(f)...)
 	jobs = append(jobs, minAgeJobs(f)...)
 	jobs = append(jobs, migrationJobs(f)...)
+	jobs = append(jobs, pureJobs(f)...)
 	jobs = append(jobs, randomJobs(f)...)
 	return jobs
 }
